@@ -153,6 +153,20 @@ def run(ck, F):
         ck.ok("R3", "positive-control", "engine/controls/src/lib.rs", f"controls flagged: {sorted(camb)}")
     else:
         ck.undecided("R3", "positive-control", "engine/controls/src/lib.rs", f"ambient scanner reports {sorted(camb)} on the controls")
+    # .. and how the process configured its logger is one: what the logging macros evaluate they evaluate only when the level is enabled,
+    # so nothing that changes a value is computed there
+    effs, n_lv = scans.scan_log_guarded_effects(F.lib, lambda p: in_scope(p) or "yaserde_tests" in p)
+    for (fn, site, what) in effs:
+        ck.violation("R3", f"effect-under-log-level:{fn.rsplit('::', 1)[-1]}", site,
+                     f"{fn}: {what} happens only when the logging level is enabled (inside the arguments of a logging macro, or under a test of the "
+                     f"level): with another logger configuration (`RUST_LOG`, a library caller without a logger) the same input gives another output", fn=fn)
+    if not effs:
+        ck.ok("R3", "no-effect-under-log-level", "-", f"nothing is changed under a test of the logging level ({n_lv} level test(s) looked at)")
+    ceff, _n = scans.scan_log_guarded_effects(ctl)
+    if {h[0] for h in ceff} == {"c12_effect_under_log_level"}:
+        ck.ok("R3", "positive-control:log-level", "engine/controls/src/lib.rs", "the control that records under the level test is flagged, the one that only logs there is not")
+    else:
+        ck.undecided("R3", "positive-control:log-level", "engine/controls/src/lib.rs", f"log-level scanner reports {sorted({h[0] for h in ceff})} on the controls")
     # .. and what the output file held before the run is an ambient input too: when the CLI opens the file itself, it opens it empty
     # (decided under C17.R6, kept here)
     from rules import c04 as C04
